@@ -774,17 +774,15 @@ class Rinex212NavParser(ChainParser):
         # TODO: It is only a workaround. This should be done before generating a TimeObject!!!! Use 28.02.2016 as check.
         # TODO: Is it necessary for toe? Or is toe always refered to current GPS week?
         for field in ["toe", "transmission_time"]:
-            # gpssec = self.data[field].gpssec.copy()
+            week = self.data[field].gps_ws.week
             gpssec = self.data[field].gps_ws.seconds
-            # time_diff = self.data["time"].gpssec - gpssec
-            time_diff = self.data["time"].gps_ws.seconds - gpssec
-            if np.any(time_diff > 302_400):
-                idx = time_diff > 302_400
-                gpssec[idx] += 604_800
-            elif np.any(time_diff < -302_400):
-                idx = time_diff < -302_400
-                gpssec[idx] -= 604_800
-            self.data[field] = Time(val=self.data["gnss_week"], val2=gpssec, scale="gps", fmt="gps_ws")
+            # Difference to navigation epoch in seconds (GPS week of both epochs is taken into account). Each
+            # navigation record is handled on its own: a file can include week crossovers in both directions.
+            toc = self.data["time"].gps_ws
+            time_diff = (toc.week - week) * 604_800 + toc.seconds - gpssec
+            gpssec[time_diff > 302_400] += 604_800
+            gpssec[time_diff < -302_400] -= 604_800
+            self.data[field] = Time(val=week, val2=gpssec, scale="gps", fmt="gps_ws")
 
     #
     # WRITE DATA
